@@ -3,6 +3,7 @@ package p2j
 import (
 	"context"
 	"fmt"
+	"math"
 
 	"github.com/cloudwego/dynamicgo/http"
 	"github.com/cloudwego/dynamicgo/internal/json"
@@ -191,11 +192,19 @@ func (self *BinaryConv) unmarshalSingular(ctx context.Context, resp http.Respons
 		if e != nil {
 			return wrapError(meta.ErrRead, "unmarshal Floatkind error", e)
 		}
+		if f := float64(v); math.IsNaN(f) || math.IsInf(f, 0) {
+			// JSON has no representation for NaN and Infinity (the encoder would emit nothing)
+			return wrapError(meta.ErrConvert, fmt.Sprintf("unsupported non-finite float value %v", v), nil)
+		}
 		*out = json.EncodeFloat64(*out, float64(v))
 	case proto.DOUBLE:
 		v, e := p.ReadDouble()
 		if e != nil {
 			return wrapError(meta.ErrRead, "unmarshal Doublekind error", e)
+		}
+		if math.IsNaN(v) || math.IsInf(v, 0) {
+			// JSON has no representation for NaN and Infinity (the encoder would emit nothing)
+			return wrapError(meta.ErrConvert, fmt.Sprintf("unsupported non-finite double value %v", v), nil)
 		}
 		*out = json.EncodeFloat64(*out, float64(v))
 	case proto.STRING:
